@@ -99,6 +99,7 @@ AtomOf(a) ==
     [] a = "c100s" -> Cls(<<97, 122, 20480, 20553>>, FALSE)
     [] a = "c101s" -> Cls(<<97, 122, 20480, 20554>>, FALSE)
     [] a = "neg"   -> Cls(<<0, 96, 98, 1114111>>, FALSE)
+    [] a = "c0"    -> Cls(<<>>, FALSE)                    \* the empty class, written [^\x00-\x{10FFFF}]: matches nothing
     [] a = "dot"   -> Leaf("AnyCharNotNL")
     [] a = "dotnl" -> Leaf("AnyChar")
     [] a = "empty" -> Leaf("EmptyMatch")
